@@ -371,6 +371,9 @@ type harness struct {
 	nser, nverify, npverify, nflip int
 	outcomes                       map[string]map[uint16]bool
 	flipClass                      map[string]int
+	nservar                        map[string]int // ser events by variant (a = again, d = decoded, g = garbage)
+	nvar                           int
+	doVariants                     bool
 }
 
 var progress atomic.Int64
